@@ -427,6 +427,9 @@ class EquationSolver(object):
                 except NameError:
                     failed.append((var, eqn))
                     continue
+                except ZeroDivisionError as er:
+                    # Same treatment as a persistent error inside the iteration: a value error.
+                    raise ValueError('Error evaluating variable {0} = {1}'.format(var, str(er)))
                 if val != val or abs(val) == float('inf'):
                     raise ValueError('Non-finite value computed for variable ' + var)
                 initial[var] = val
